@@ -209,7 +209,7 @@ impl Scenario {
         self.players
             .iter()
             .map(|p| p.distinct_len() as u64)
-            .product::<u64>()
+            .fold(1u64, |a, b| a.saturating_mul(b))
     }
     pub fn short(&self) -> String {
         format!(
